@@ -3,8 +3,7 @@ from .common import *
 from gen import fields as G
 
 
-def run(tier, only=None):
-    chk = Check('C04', tier)
+def build(tier, only, chk):
     jobs = []
     for b in bindings(only, chk):
         src, n = G.c04_init(b)
@@ -15,6 +14,12 @@ def run(tier, only=None):
                             unwind=70, unwindset=WALKER,
                             meta={'format': b.fmt, 'buffer_bytes': b.spec_len, 'initialisers': n,
                                   'domain': 'all 2^%d prior contents' % (8 * b.spec_len)}))
+    return jobs
+
+
+def run(tier, only=None):
+    chk = Check('C04', tier)
+    jobs = build(tier, only, chk)
     chk.run(jobs)
     chk.assumptions = STD_ASSUME
     return chk.finish(
